@@ -45,6 +45,8 @@ fn termops(d: &mut Drv) {
             // ---- fused multiply-add: trait in its eight forms, inherent with vector and scalar operands
             let arg3 = |form: &str, b: &[Tm], c: &[Tm]| json!({"ty": $name, "n": $n, "code": FMA, "form": form, "a": tms(&a), "b": tms(b), "c": tms(c)});
             d.call("ew3", || arg3("v.v.v", &b, &c), || o(MulAdd::mul_add(va, vb, vc)));
+            #[allow(deprecated)]
+            { d.call("ew3", || arg3("v.v.v", &b, &c), || o(vek::ops::mul_add(va, vb, vc))); }
             d.call("ew3", || arg3("&v.v.v", &b, &c), || o(MulAdd::mul_add(&va, vb, vc)));
             d.call("ew3", || arg3("v.v.&v", &b, &c), || o(MulAdd::mul_add(va, vb, &vc)));
             d.call("ew3", || arg3("&v.v.&v", &b, &c), || o(MulAdd::mul_add(&va, vb, &vc)));
@@ -143,6 +145,9 @@ fn intops(d: &mut Drv) {
             d.call("reduce_i", || r("or", &z), || json!($V::<i32>::from_slice(&z32).reduce_or() as i64));
             d.call("reduce_i", || r("and", &z), || json!($V::<bool>::from_slice(&zb).reduce_and() as i64));
             d.call("reduce_i", || r("or", &z), || json!($V::<bool>::from_slice(&zb).reduce_or() as i64));
+            // the deprecated chained inequality of booleans: the left fold of !=, i.e. the parity of the true elements
+            #[allow(deprecated)]
+            { d.call("reduce_i", || r("ne", &z), || json!($V::<bool>::from_slice(&zb).reduce_ne() as i64)); }
             d.call("reduce_i", || r("and", &z), || json!($V::<f32>::from_slice(&zf).reduce_and() as i64));
             d.call("reduce_i", || r("or", &z), || json!($V::<f32>::from_slice(&zf).reduce_or() as i64));
             d.call("reduce_i", || r("any_negative", &a), || json!(va.is_any_negative() as i64));
